@@ -26,8 +26,9 @@ import (
 )
 
 type c12Pick struct {
-	e    *c12Entry
-	form c12Form
+	e         *c12Entry
+	form      c12Form
+	cancelled bool // context form with an already cancelled context
 }
 
 // c12Plan: weighted random choice plus a round-robin cursor over every
@@ -46,9 +47,9 @@ func c12NewPlan(entries []*c12Entry) *c12Plan {
 	for _, e := range entries {
 		p.total += e.weight
 		p.cum = append(p.cum, p.total)
-		p.rr = append(p.rr, c12Pick{e, c12Plain})
+		p.rr = append(p.rr, c12Pick{e, c12Plain, false})
 		if !e.noCtx {
-			p.rr = append(p.rr, c12Pick{e, c12Ctx})
+			p.rr = append(p.rr, c12Pick{e, c12Ctx, false}, c12Pick{e, c12Ctx, true})
 		}
 	}
 	return p
@@ -57,7 +58,8 @@ func c12NewPlan(entries []*c12Entry) *c12Plan {
 func (p *c12Plan) random(r *rand.Rand) c12Pick {
 	x := r.Intn(p.total)
 	i := sort.SearchInts(p.cum, x+1)
-	return c12Pick{p.entries[i], c12Form(r.Intn(2))}
+	f := c12Form(r.Intn(2))
+	return c12Pick{p.entries[i], f, f == c12Ctx && r.Intn(25) == 0}
 }
 
 func c12Keys(r *rand.Rand) []string {
@@ -98,8 +100,7 @@ func c12RunHistory(m *vk.M, idx int, kind string, w *c12World, side *c12Side, he
 		} else {
 			pk = plan.random(r)
 		}
-		cancelled := pk.form == c12Ctx && r.Intn(25) == 0
-		ok := h.step(pk.e, pk.form, cancelled)
+		ok := h.step(pk.e, pk.form, pk.cancelled)
 		if fromRR {
 			if ok || plan.stall > 40 {
 				plan.cursor++
@@ -161,6 +162,17 @@ func c12Report(m *vk.M, kind string, t reflect.Type, entries []*c12Entry, st *c1
 		}
 	}
 	m.Extra("calls_per_method", calls)
+	m.Extra("cancelled_context_calls_per_ctx_method", st.cancelled)
+	var noCancel []string
+	for f := range calls {
+		if strings.HasSuffix(f, "Ctx") && st.cancelled[f] == 0 {
+			noCancel = append(noCancel, f)
+		}
+	}
+	sort.Strings(noCancel)
+	if len(noCancel) > 0 {
+		m.Note("%s: Ctx methods never called with a cancelled context in this run: %s", kind, strings.Join(noCancel, ","))
+	}
 	m.Extra("unsupported_by_miniredis_calls_per_method", st.unsupported)
 	for k, v := range st.kinds {
 		m.Count(k, v)
@@ -283,7 +295,7 @@ func c12Differential(t *testing.T, kind string, nHist int, rule string) {
 // TestVerifC12Redis: redis.Redis on miniredis A vs raw go-redis on miniredis B.
 func TestVerifC12Redis(t *testing.T) {
 	c12Differential(t, "redis", vk.N(220, 6000),
-		"twin-server differential: every exported command method of redis.Redis (plain and Ctx form, 1 in 25 Ctx calls with a cancelled context) vs the go-redis call of the hand-written table; seeded histories of 50-300 commands over 6 keys (type-aware key choice, 12% wrong-type), fast-forwards; results compared after the documented conversion, the alphabet's keys (type,value,TTL) after every command, the whole keyspace after every history; non-trivial = >10 compared commands and a non-empty keyspace")
+		"twin-server differential: every exported command method of redis.Redis (plain and Ctx form; every Ctx method also with an already cancelled context) vs the go-redis call of the hand-written table; seeded histories of 50-300 commands over 6 keys (type-aware key choice, 12% wrong-type), fast-forwards; results compared after the documented conversion, the alphabet's keys (type,value,TTL) after every command, the whole keyspace after every history; non-trivial = >10 compared commands and a non-empty keyspace")
 }
 
 // TestVerifC12KV: kv.Store over 1..4 miniredis shards vs raw go-redis on one miniredis.
@@ -299,7 +311,7 @@ func TestVerifC12KV(t *testing.T) {
 // per-address breaker; connection failures do.
 func TestVerifC12Breaker(t *testing.T) {
 	logx.Disable()
-	m := vk.New(t, "C12", "breaker clause: N Nil-returning calls and N cancelled-context calls on one instance never yield ErrServiceUnavailable (virtual clock: all inside one breaker window), a normal call still succeeds afterwards; then on a fresh instance with 20 accepted calls the server is closed: connection failures are observed and a breaker rejection must appear within 100 failures + 200 further calls")
+	m := vk.New(t, "C12", "breaker clause: N Nil-returning calls and N cancelled-context calls on one instance never yield ErrServiceUnavailable (virtual clock: all inside one breaker window), a normal call still succeeds afterwards; then on a fresh instance with 20 accepted calls the server is closed: connection failures are observed and a breaker rejection must appear within 100 failures + 60 further calls")
 	defer m.Done()
 	timex.VerifFakeClock(time.Hour)
 	defer timex.VerifRealClock()
@@ -415,7 +427,7 @@ func TestVerifC12Breaker(t *testing.T) {
 	failures, rejections, firstRejectionAfter, calls := 0, 0, -1, 0
 	others := map[string]int{}
 	for calls < 2000 {
-		if failures >= 100 && rejections == 0 && calls >= failures+200 {
+		if failures >= 100 && rejections == 0 && calls >= failures+60 {
 			break
 		}
 		if rejections >= 20 {
